@@ -94,6 +94,33 @@ theorem repAux_first (step : St → List St) (g : Bool) (P : St → Prop)
       obtain ⟨mid, ⟨hmid, _⟩, _⟩ := hm
       exact hstep st mid hmid
 
+/-- a zero-width assertion leaves the state unchanged -/
+theorem isAssert_derivs (E : Env) (a : Re) (h : isAssert a = true) (st mid : St) (hm : mid ∈ derivs E a st) :
+    mid = st := by
+  cases a with
+  | eps => simpa [derivs] using hm
+  | look ahead neg w r =>
+    simp only [derivs] at hm
+    split at hm
+    · simp at hm; exact hm.2
+    · simp at hm; exact hm.2
+  | atEnd =>
+    simp only [derivs] at hm
+    split at hm
+    · simpa using hm
+    · simp at hm
+  | wordB =>
+    simp only [derivs] at hm
+    split at hm
+    · simpa using hm
+    · simp at hm
+  | set S => simp [isAssert] at h
+  | cat a b => simp [isAssert] at h
+  | alt a b => simp [isAssert] at h
+  | rep lo hi g r => simp [isAssert] at h
+  | grp n r => simp [isAssert] at h
+  | bref n => simp [isAssert] at h
+
 /-- every derivation of an expression with a first-character set starts with a character of that set -/
 theorem firstSet_sound (E : Env) : ∀ (r : Re) (S : List (Nat × Nat)), firstSet r = some S →
     ∀ st st', st' ∈ derivs E r st → ∃ c, E.s[st.pos]? = some c ∧ (CpSet.mk S).mem c = true := by
@@ -111,14 +138,19 @@ theorem firstSet_sound (E : Env) : ∀ (r : Re) (S : List (Nat × Nat)), firstSe
       · rename_i hm; exact ⟨c, hc, hm⟩
       · simp at hd
     · simp at hd
-  | cat a b iha _ =>
+  | cat a b iha ihb =>
     intro S h st st' hd
     simp only [firstSet] at h
+    simp only [derivs, List.mem_flatMap] at hd
+    obtain ⟨mid, hmid, hrest⟩ := hd
     split at h
-    · simp only [derivs, List.mem_flatMap] at hd
-      obtain ⟨mid, hmid, _⟩ := hd
-      exact iha S h st mid hmid
-    · simp at h
+    · exact iha S h st mid hmid
+    · split at h
+      · rename_i hz
+        have := isAssert_derivs E a hz st mid hmid
+        subst this
+        exact ihb S h mid st' hrest
+      · simp at h
   | alt a b iha ihb =>
     intro S h st st' hd
     simp only [firstSet] at h
